@@ -15,6 +15,8 @@ PROP = {'drive': ['GNames'],
                        'C20_install',
                        'C20_makesimple',
                        'C20_makesimple_kept',
+                       'C20_makesimple_rule',
+                       'C20_makesimple_valid',
                        'C20_psname',
                        'C20_old_order_dependent',
                        'C20_old_overwrites',
@@ -22,9 +24,13 @@ PROP = {'drive': ['GNames'],
  'areas': [('gnames', 1500, 40000)],
  'rule': 'distinct case lines (outlines kind, existing names, cmap, GSUB subtables / names + glyph text / '
          'family + style); non-trivial = at least two glyphs and a cmap or a GSUB subtable',
- 'partial': ['MakeSimple: the rule "a glyph with text gets FromUnicode(text) or the first free .altN" is in '
-             'the model and checked by correspondence (gnames.cffmake), not stated as a theorem; the '
-             'Encoding/ROS/FontMatrices side effects of MakeSimple are not modelled',
+ 'partial': ['MakeSimple: C20_makesimple_rule states which names a glyph can get (kept / base or base.altN, valid '
+             'only / placeholder) but not that the .altN number is the least free one: that is in the model and '
+             'checked by correspondence (gnames.cffmake); the Encoding/ROS/FontMatrices side effects of '
+             'MakeSimple are not modelled',
+             'the direct predicate gnames.inferred (a glyph derived by a GSUB rule from glyphs named before the '
+             'GSUB pass never ends with a placeholder) is an executable predicate on the real output, not a '
+             'theorem about the model',
              'Subfamily() is not modelled: gnames.psname gives the model the real Subfamily() string; the direct '
              'stream gnames.pschars checks the characters of the real PostScriptName() for Width 0..12, '
              'Weight 0..1100 and all style flags'],
@@ -40,7 +46,7 @@ PROP = {'drive': ['GNames'],
                  'C20_total); no nil *cff.Glyph entries; coverage indices are non-negative; rune range of the '
                  'cmap below 2^31',
                  'C20_makesimple_kept (.notdef stays the name of glyph 0) needs IsValid(".notdef") = true: '
-                 'true of the real function (it is its first line; every cffmake case re-checks it)']}
+                 'true of the real function (it is its first line; every cffmake case re-checks it); C20_makesimple_valid needs IsValid(ornNNN) = true: direct streams gnames.safe / gnames.cffstable check every real output name']}
 
 LEVEL = {'text': 'Proof: for every font with at least one glyph, every pattern of existing names (missing, '
          'duplicate, invalid, none, short list, CID-keyed), every cmap, every list of GSUB 1.1/1.2/3.1/4.1 '
